@@ -496,6 +496,25 @@ def run_unit_inner(unit, tier, seed):
             else:
                 keep.append(v)
         viol = keep
+    # a stand-in written for a function (fn-local //@exprmap) whose key text no longer occurs in the body: the code it stood
+    # for was rewritten, and what replaced it reaches Verus unmodelled (std calls without specification, trait objects). A
+    # failing obligation in that function then says nothing about the property -> undecided (lost anchor), never a violation.
+    # On the unchanged tree no fn-local exprmap is unused, so this costs nothing there.
+    lost = {}
+    for x in vxlog.get("unused_local_exprmaps", []):
+        if x.get("exprmap"):
+            # the name Verus knows the function by: the rename= of a lifted piece, else the function's own name
+            key = x["rename"] if x.get("rename") else x.get("fn", "").split("::")[-1]
+            lost.setdefault(key, []).append(x["exprmap"])
+    if lost and viol:
+        keep = []
+        for v in viol:
+            hit = lost.get(v["fn"].split("::")[-1], [])
+            if hit:
+                undec.append({"unit": unit, "reason": "obligation failed in a function one of whose stand-ins no longer matches the code (lost anchor //@exprmap)", "id": v["id"], "exprmap": hit[:3]})
+            else:
+                keep.append(v)
+        viol = keep
     fb = breakdown(res)
     counts = air_counts(logdir)
     subprocess.run(["rm", "-rf", logdir])
